@@ -90,6 +90,18 @@ def check_case(case):
             _cmp("plot-index", [float(x) for x in df.index], grid, vs, case)
         # the converter holds time(): values must be the labels
         _cmp("plot-time-values", [float(x) for x in c.plot(return_df=True)["c"]], grid, vs, case)
+        # explicit sub-range of the grid
+        if n >= 3:
+            a, b_ = 1, n - 1
+            m2, s2, c2 = build()
+            df = c2.plot(starttime=grid[a], stoptime=grid[b_], return_df=True)
+            _cmp("plot-subrange-index", [float(x) for x in df.index], grid[a:b_ + 1], vs, case)
+            _cmp("plot-subrange-values", [float(x) for x in df["c"]], grid[a:b_ + 1], vs, case)
+            df = s2.plot(starttime=grid[a], stoptime=grid[b_], return_df=True)
+            want = [1.0 + 2.0 * dt * i for i in range(a, b_ + 1)]
+            got = [float(x) for x in df["s"]]
+            if len(got) != len(want) or any(abs(g - w) > 1e-9 * max(1, abs(w)) for g, w in zip(got, want)):
+                vs.append(Violation("plot-subrange-stock", "stock plotted on %r..%r gives %r expected %r" % (grid[a], grid[b_], got[-3:], want[-3:])))
 
     if "batch" in parts or "session" in parts:
         b = bptk()
